@@ -1,6 +1,6 @@
 (* Entry point of the C15 model for the correspondence check: term -> term. *)
 From Oak Require Import Base.Term Model.Origin.
-Open Scope Z_scope.
+Local Open Scope Z_scope.
 
 Definition point_of_term (t : term) : option point :=
   match is_con "P" t with
